@@ -2,6 +2,15 @@ package h_poolctl
 
 // Oracles for C39.  Everything here judges the API server's true state (never the controller's caches) and
 // restates the property; it does not know the controller's sort categories, trie or write order.
+//
+//   finalizer_removed_with_blocks          at every controller write that drops the pool finalizer (irreversible)
+//   terminating_pool_unmasked              at quiescence and at the moment an obligated terminating pool finally goes
+//   allocatable_pool_displaced             at quiescence
+//   overlapping_allocatable_at_quiescence  at quiescence
+//   no_convergence / fixpoint_after_convergence   bounded convergence after faults stop
+//
+// The only tagged class: the message starts with "STALE-PASS(no write failed): " when the damaging write came from a
+// pass that had missed a decision-relevant change to an overlapping pool and none of that pass's writes had failed.
 
 import (
 	"fmt"
